@@ -52,6 +52,12 @@ CLAIMED['C08'] = ("process-level runtime monitoring: every decoder entry point i
 CLAIMED['C18'] = ("reference-model monitor: WKB byte equality (mod -0) from the independent writer for the option-free relation, harness canonical form for IgnoreOrder, metamorphic monitors (symmetry, reflexivity, transitivity on sampled triples, tolerance perturbations) over one-difference families",
   "Exploration by runtime monitoring: for thousands of base trees per run (arbitrary finite trees with magnitudes from subnormal to 1e300 and valid lattice geometries with Z/M) a family of one-difference variants and order-insignificant shuffles is generated; ExactEquals with every option subset and both argument orders is compared with the two reference relations.",
   "closed curves with ordinates of extreme magnitude are judged on the option-free relation only (whether they are simple, hence rings, is outside C03's domain)", "DESIGN.md §3 C18")
+CLAIMED['C16'] = ("invariant monitor over a tree walk: coordinate type of every node reachable through accessors, and the (XY -> Z,M) association of uniquely tagged vertices, observed before and after every operation in the statement's list; harness model of ForceCoordinatesType and of constructor reduction",
+  "Exploration by runtime monitoring: thousands of trees per run (7 types x 4 coordinate types, empty members at every position, typed empties, valid lattice geometries) with unique Z/M tags are passed through ForceCoordinatesType/Force2D (every target), Reverse, ForceCW/CCW, TransformXY, SnapToGrid, Densify, Dump, DumpCoordinates, DumpRings, AsMulti*, WKB/WKT round trips and the XY-only operations; mixed-type constructions of every container are compared with the expected reduction.",
+  "tuples compared as multisets (subsequence for Densify); XY-only set operations only on oracle-valid inputs", "DESIGN.md §3 C16")
+CLAIMED['C17'] = ("contract monitors with exact arithmetic: subsequence/on-segment/gap checks for Densify, subsequence-embedding + exact distance-to-line for Simplify, 200-bit arc-length oracle for InterpolatePoint/InterpolateEvenlySpacedPoints, sweep of SnapToGrid over decimal places -320..320 x ordinate classes, involution/orientation monitors",
+  "Exploration by runtime monitoring: thousands of valid lineal/areal geometries per run (all coordinate types, repeated vertices at start/middle/end, zero-length leading/trailing segments; lattice and general position) under swept parameters (d, t, f incl. breakpoints +-1 ulp, n 0..50) plus the SnapToGrid sweep; each result is judged by the operation's contract as stated.",
+  "tolerances 1e-9*M / (1+1e-12) fixed in DESIGN.md; Simplify accepts any embedding that satisfies the bound", "DESIGN.md §3 C17")
 REASONS = {}
 hooks_commits = subprocess.run(['git','-C','/repo','log','--format=%h %s'],capture_output=True,text=True).stdout.splitlines()
 hook_commits = [l.split()[0] for l in hooks_commits if l.split(' ',1)[1].startswith('verif hook')]
